@@ -1,3 +1,4 @@
+#include <morfuse/Script/Game.h>
 #include "Compiler.h"
 #include <morfuse/Script/Parm.h>
 #include <morfuse/Script/Level.h>
@@ -535,7 +536,7 @@ bool ScriptEmitter::BuiltinReadVariable(sourceLocation_t sourceLoc, uint8_t type
     switch (type)
     {
     case method_game:
-        c = nullptr;
+        c = &Game::staticclass();
         break;
 
     case method_level:
@@ -584,7 +585,7 @@ bool ScriptEmitter::BuiltinWriteVariable(sourceLocation_t sourceLoc, uint8_t typ
     switch (type)
     {
     case method_game:
-        c = nullptr;
+        c = &Game::staticclass();
         break;
 
     case method_level:
